@@ -3,8 +3,9 @@
 Generated: package directories (ebuilds, metadata.xml/ChangeLog/misc files, nested files/ trees, CVS/.svn
 dirs that the generator must skip), distfile sets (fetchables with size + random checksums, some with
 leading zero digits, some lacking an optional hash), hash lists, thick and thin mode, a second state of the
-directory/distfiles (the "edit") and a seed that shuffles both the `fetchables` argument and the order in
-which `iter_scan` yields directory entries.
+directory/distfiles (the "edit") and a seed that permutes the `fetchables` argument, the order in which
+`iter_scan` yields directory entries, the order of the hash names in `chfs` (after 'size') and the insertion order
+of every fetchable's checksum mapping; file and distfile names are whitespace-free, partly non-ASCII.
 
 Oracle (independent: hashlib over the bytes the harness wrote + the generated distfile table):
  1. `parse_manifest(Manifest)` and a line parser of my own both equal the expected {type: {name: {size, chf..}}}.
@@ -33,7 +34,7 @@ from .. import core, crash
 ID = "C28"
 TITLE = "Manifest generation is deterministic, idempotent, parseable and atomic"
 LEVEL = "fault_enumeration"
-TECHNIQUE = "round trip vs hashlib reference + metamorphic shuffles (listing/argument order) + crash/EIO injection at every file operation of the rewrite"
+TECHNIQUE = "round trip vs hashlib reference + metamorphic shuffles (listing / fetchable / hash-name / checksum-mapping order) + crash/EIO injection at every file operation of the rewrite"
 DESIGN_REF = "DESIGN.md §3 C28"
 LEVEL_TEXT = (
     "Random package directories and distfile tables are turned into Manifests; the parsed result is compared with "
@@ -46,7 +47,8 @@ LEVEL_NOTE = (
     "writes are not modelled. Listing order is varied by wrapping pkgcore.ebuild.digest.iter_scan. No proof of absence."
 )
 RULE = (
-    "case = thin|thick, hash list (size + 1-3 of 8 hashes), 1-8 files (ebuilds, misc, files/ subtree up to depth 3, "
+    "case = thin|thick, hash list (size + 1-3 of 8 hashes, any order; every update() call sees a different permutation of hash names, "
+    "checksum-mapping keys, fetchables and directory listing), 1-8 files with ASCII or non-ASCII names (ebuilds, misc, files/ subtree up to depth 3, "
     "CVS/.svn noise), 0-4 distfiles, an edit (changed/added/removed files, changed distfile table), shuffle seed; crash "
     "cases enumerate all (event, mode) points of the rewrite. non-trivial = some Manifest section has >=2 entries and the "
     "edit changes the expected Manifest (a real rewrite of an existing file); distinct = canonical JSON of the case"
@@ -74,11 +76,18 @@ def _imports():
 # ---------------------------------------------------------------- generators
 
 _AL = "abcdefghijklmnopqrstuvwxyzABCDEFGHIJKLMNOPQRSTUVWXYZ0123456789"
-_fname = st.builds(
+_ascii_fname = st.builds(
     lambda a, b: a + b,
     st.sampled_from(list(_AL + "_")),
     st.text(alphabet=_AL + "._+-", max_size=10),
 ).filter(lambda s: s not in EXCLUDED and not s.endswith(".ebuild") and s != "files")
+# whitespace-free non-ASCII names: the Manifest is text, byte length != character length
+_utf8_fname = st.one_of(
+    st.sampled_from(["gr\u00f6\u00dfe-fix.patch", "na\u00efve-1.0.tar.gz", "\u65e5\u672c.patch", "caf\u00e9", "\u00fc.diff", "x-\u2713.tar"]),
+    st.builds(lambda a, b, c: a + b + c, st.sampled_from(list(_AL)), st.text(alphabet="\u00e9\u00fc\u00df\u00f1\u65e5\u2713" + _AL, min_size=1, max_size=6),
+              st.sampled_from(["", ".patch", ".tar.gz"])).filter(lambda s: not s.isascii()),
+)
+_fname = st.one_of(_ascii_fname, _ascii_fname, _ascii_fname, _utf8_fname)
 _data = st.one_of(
     st.just(b""), st.binary(max_size=64), st.binary(min_size=100, max_size=700),
     st.sampled_from([b"EAPI=8\n", b"<pkgmetadata/>\n", b"patch\n", b"\n", b"a b\tc\n"]),
@@ -133,7 +142,7 @@ def _dist(draw, hashes):
 def cases(draw, crash_case=False):
     thin = draw(st.integers(min_value=0, max_value=9)) >= 7
     hashes = draw(st.one_of(
-        st.just(["blake2b", "sha512"]),
+        st.sampled_from([["blake2b", "sha512"], ["sha512", "blake2b"], ["sha512", "sha256", "blake2b"]]),
         st.lists(st.sampled_from(HASHES), unique=True, min_size=1, max_size=3),
     ))
     tree = draw(_tree())
@@ -261,8 +270,24 @@ class Env:
         finally:
             self.digest.iter_scan = real
 
+    @staticmethod
+    def reorder(items, seed):
+        """a permutation of `items` chosen by `seed` such that seeds s and s+1 never give the same order when
+        len(items) >= 2 with distinct members: odd seeds reverse, then rotate by seed//2"""
+        items = list(items)
+        if seed % 2:
+            items.reverse()
+        if len(items) > 2:
+            r = (seed // 2) % len(items)
+            items = items[r:] + items[:r]
+        return items
+
     def fetchables(self, dist, seed):
-        l = [self.fetchable(n, chksums={"size": size, **{h: int(v, 16) for h, v in ck.items()}}) for n, size, ck in dist]
+        l = []
+        for n, size, ck in dist:
+            pairs = [("size", size)] + [(h, int(v, 16)) for h, v in ck.items()]
+            # insertion order of the checksum mapping is an input order too
+            l.append(self.fetchable(n, chksums=dict(self.reorder(pairs, seed))))
         random.Random(seed).shuffle(l)
         return l
 
@@ -270,7 +295,9 @@ class Env:
         """one Manifest.update() the way repo_operations drives it; the shuffle seed only picks orders"""
         m = self.digest.Manifest(os.path.join(pkgdir, "Manifest"), thin=case["thin"], allow_missing=True)
         with self.shuffled_scan(seed):
-            return m.update(self.fetchables(dist, seed), chfs=tuple(case["chfs"]))
+            # callers list 'size' first; the order of the other hash names is theirs (manifest-hashes in layout.conf)
+            chfs = tuple(case["chfs"][:1] + self.reorder(case["chfs"][1:], seed))
+            return m.update(self.fetchables(dist, seed), chfs=chfs)
 
 
 def _write_tree(pkgdir, items):
@@ -330,6 +357,12 @@ def check_case(ctx, case, env=None):
         cl.append("dist_missing_optional_hash")
     if any(EXCLUDED.intersection(p.split("/")) for p in tree1):
         cl.append("vcs_noise")
+    if len(case["chfs"]) > 2:
+        cl.append("multi_hash")
+        if case["chfs"][1:] != sorted(case["chfs"][1:]):
+            cl.append("multi_hash_non_alphabetical")
+    if any(not n.isascii() for t in (exp1, exp2) for sec in t.values() for n in sec):
+        cl.append("non_ascii_name")
     if any(len(d) == 0 for d in tree1.values()):
         cl.append("empty_file")
     if exp1 != exp2:
@@ -522,8 +555,8 @@ def _interleave(a, b):
 
 def plan(tier, seed):
     if tier == "quick":
-        return _interleave([{"task": "crash", "examples": 30} for _ in range(8)], [{"task": "gen", "examples": 160} for _ in range(8)])
-    return _interleave([{"task": "crash", "examples": 1500} for _ in range(16)], [{"task": "gen", "examples": 6000} for _ in range(16)])
+        return _interleave([{"task": "gen", "examples": 160} for _ in range(8)], [{"task": "crash", "examples": 30} for _ in range(8)])
+    return _interleave([{"task": "gen", "examples": 6000} for _ in range(16)], [{"task": "crash", "examples": 1500} for _ in range(16)])
 
 
 def run_task(ctx, task, **kw):
